@@ -131,3 +131,58 @@ impl StackFrame {
 // R-err: `format!("Attempted to exit scope above current").into()`
 #[verifier::external_body]
 pub fn err_exit_scope_above_current() -> Error { unimplemented!() }
+
+// ---- interpreter arms (thread.rs execute_): the context as far as the extracted arms use it
+pub type VmInt = i64;
+#[verifier::external_body] pub struct F64 { _p: () }
+#[verifier::external_body] pub struct EqFloat { _p: () }
+impl EqFloat {
+    // `f.into()`: EqFloat -> f64
+    #[verifier::external_body]
+    pub fn into(self) -> F64 { unimplemented!() }
+}
+// the scalar part of value.rs ValueRepr that the push arms construct
+pub enum ValueRepr { Int(VmInt), Byte(u8), Float(F64) }
+use ValueRepr::{Int, Float};
+// injection ValueRepr -> Value (Value is a transparent wrapper of ValueRepr)
+pub uninterp spec fn repr_value(r: ValueRepr) -> Value;
+
+impl StackFrame {
+    // StackFrame::push<T: StackPrimitive>(v) = v.push_to(&mut self.stack); every StackPrimitive impl ends in
+    // `stack.values.push(value.clone_unrooted())` (Value's impl, stack.rs) -- ASSUMED for the ValueRepr instance
+    #[verifier::external_body]
+    pub fn push(&mut self, v: ValueRepr)
+        ensures final(self).stack.values@ == old(self).stack.values@.push(repr_value(v)),
+                final(self).stack.frames@ == old(self).stack.frames@, final(self).frame == old(self).frame,
+                final(self).stack.max_stack_size == old(self).stack.max_stack_size,
+    { unimplemented!() }
+}
+pub struct ExecuteContext { pub stack: StackFrame }
+
+// ---- Construct* arms: what an allocated data value is, abstractly
+pub type VmTag = u32;
+pub uninterp spec fn tag_value(tag: VmTag) -> Value;                          // Value::tag(tag): a field-less variant
+pub uninterp spec fn data_value(tag: VmTag, fields: Seq<Value>) -> Value;     // a heap data value with these fields, in this order
+#[verifier::external_body] pub struct DataRef { _p: () }                      // GcRef<DataStruct>
+pub uninterp spec fn dataref_value(d: DataRef) -> Value;
+impl<'a> Variants<'a> {
+    #[verifier::external_body]
+    pub fn tag(tag: VmTag) -> (r: Variants<'static>) ensures *r.v == tag_value(tag) { unimplemented!() }
+    #[verifier::external_body]
+    pub fn from(d: DataRef) -> (r: Variants<'static>) ensures *r.v == dataref_value(d) { unimplemented!() }
+}
+// `alloc(&mut self.gc, self.thread, &self.stack.stack(), Def { tag, elems: fields })`: allocates a variant whose fields are
+// copies of `elems` in order, possibly collecting first (roots: the stack) -- ASSUMED; fails with an error value on OOM
+#[verifier::external_body]
+pub fn alloc_def(tag: VmTag, elems: &[Value]) -> (r: Result<DataRef, Error>)
+    ensures r is Ok ==> dataref_value(r->Ok_0) == data_value(tag, elems@)
+{ unimplemented!() }
+impl StackFrame {
+    // push of a Variants (see `push` above)
+    #[verifier::external_body]
+    pub fn push_variants(&mut self, v: Variants<'_>)
+        ensures final(self).stack.values@ == old(self).stack.values@.push(*v.v),
+                final(self).stack.frames@ == old(self).stack.frames@, final(self).frame == old(self).frame,
+                final(self).stack.max_stack_size == old(self).stack.max_stack_size,
+    { unimplemented!() }
+}
